@@ -279,6 +279,11 @@ func VH_C15_mw(caseID int) {
 		m := w.check(sess, present)
 		after = w.op(sess, m, vChoice("op"+ss, 6), ss, mw.Destroy)
 		afterID = sess.ID()
+		if k == 2 && vChoice("herr"+ss, 2) == 1 {
+			// the handler fails after changing the session: the change is saved all the same
+			vReach("handler-error")
+			return fiber.ErrUnauthorized
+		}
 		return nil
 	})
 	h := app.Handler()
